@@ -12,7 +12,7 @@ EXPLANATION = (
     "`timestamp < effective_watermark` and lets it through under `timestamp >= effective_watermark - allowed_lateness` "
     "(HIR normal forms); (d) entry-point agreement for the tracker and the gate is shared with C16."
 )
-DECIDED = ["per-source watermark monotonicity", "effective watermark recomputed after every source update and computed as a minimum", "relations of the late-data gate", "which entry points apply the gate (shared with C16)"]
+DECIDED = ["per-source watermark monotonicity", "effective watermark recomputed after every source update and computed as a minimum", "relations of the late-data gate", "which entry points apply the gate (shared with C16)", "the late-data gate compares with the tracker's current effective watermark"]
 NOT_DECIDED = ["values of watermarks", "re-registration of a source while running (register_source is only called while loading)"]
 
 W = "varpulis_runtime::watermark::"
